@@ -153,6 +153,42 @@ def main(tier, seed):
                                   '%s at x=%s (graph recorded with %s) differs from the forward-mode derivative' % (name, x.tolist(), rec_kind),
                                   dict(kind='driver', driver=name, prog=prog, case=meta, x_rec=c05.as_data(x_rec).tolist(), x=x.tolist(), v=v.tolist(), w=w.tolist(),
                                        got=got.tolist(), want=numpy.asarray(want).tolist()))
+        # (d) results handed out stay valid: every driver called at two points, the first results HELD (not copied) and compared
+        # afterwards with copies taken when they were returned (a later call must not write into an earlier result)
+        try:
+            xa = progs.rand_point(rng, N); xb = progs.rand_point(rng, N); va = progs.rand_point(rng, N); wa = progs.rand_point(rng, M)
+            calls = [('gradient', lambda x_: cg1.gradient(x_)), ('hessian', lambda x_: cg1.hessian(x_)), ('hess_vec', lambda x_: cg1.hess_vec(x_, va)),
+                     ('jacobian', lambda x_: cgv.jacobian(x_)), ('jac_vec', lambda x_: cgv.jac_vec(x_, va)), ('vec_jac', lambda x_: cgv.vec_jac(wa, x_)),
+                     ('vec_hess', lambda x_: cgv.vec_hess(wa, x_))]
+            held = []
+            for name, c_ in calls:
+                r_ = c_(xa)
+                held.append((name, r_, numpy.array(r_, copy=True)))
+                c_(xb)
+                rep.count('driver', 'held:' + name)
+            for name, c_ in calls:
+                c_(xb)
+            rep.case(('held', text, repr(xa.tolist()), repr(xb.tolist())), True, sample=dict(driver='results held across later calls', program=text[:200]))
+            stale = [name for name, r_, cp in held if not numpy.array_equal(numpy.asarray(r_), cp, equal_nan=True)]
+            if stale:
+                rep.violation('driver:held:' + stale[0], 'the result returned by %s was overwritten by later driver calls on the same graph' % ', '.join(stale),
+                              dict(kind='driver', driver='held', prog=prog, case=meta, xa=xa.tolist(), xb=xb.tolist()))
+            # (e) integer valued points given as Python ints / integer arrays: the same derivatives as at the float point
+            xi = numpy.array([rng.randint(-2, 2) for _ in range(N)])
+            for name, c_ in calls:
+                rep.count('driver', 'int point:' + name)
+                rf = numpy.asarray(c_(xi.astype(float)), dtype=float)
+                for form, arg in (('int array', xi.copy()), ('list of int', [int(t) for t in xi])):
+                    try:
+                        ri = numpy.asarray(c_(arg), dtype=float)
+                    except Exception as e:
+                        rep.violation('driver:int-point:%s:exception' % name, '%s at an integer valued point (%s) raises %r' % (name, form, e),
+                                      dict(kind='driver', driver=name, prog=prog, case=meta, x=xi.tolist(), form=form)); break
+                    if ri.size != rf.size or not close(ri.reshape(rf.shape), rf):
+                        rep.violation('driver:int-point:' + name, '%s at the integer valued point %s given as %s differs from the same point given as floats' % (name, xi.tolist(), form),
+                                      dict(kind='driver', driver=name, prog=prog, case=meta, x=xi.tolist(), form=form, got=ri.tolist(), want=rf.tolist())); break
+        except Exception as e:
+            rep.notes.append('held/int-point section raised %r' % e)
         # (c) jacobian of a UTPM argument: Taylor expansion of every Jacobian entry along the curve
         D = rng.randint(1, 3); P = rng.randint(1, 2)
         xd = progs.rand_utpm_data(rng, D, P, N)
